@@ -324,6 +324,20 @@ def gen_cases(rng, tier):
             m2 = bytearray(msg)
             m2[b // 8] ^= 1 << (b % 8)
             cases.append(["t%d-%d" % (si, b), "c20", "dec", bytes(m2).hex(), q, "tamper", str(b), "|".join(attrs)])
+    # an integrity attribute whose value is SHORTER than the digest (empty, or a prefix of the right HMAC computed for the length the
+    # verifier patches in) is not a valid integrity value: the message must not verify
+    k = 0
+    for code, alg, full in (("MI", hashlib.sha1, 20), ("MS", hashlib.sha256, 32)):
+        for cls, tsx, pre in (("ok", TSX[2], ["SW:" + b"ezk".hex(), "XM:192.0.2.66:32853"]), ("req", TSX[0], ["UN:" + b"user".hex()]), ("ind", TSX[1], [])):
+            for ln in (0, 4, 8, 16, full - 4):
+                body = rfc_encode(cls, tsx, pre)[20:]
+                typ = 0x0001 | CLASSBITS[cls]
+                head = lambda n: struct.pack(">HHI", typ, n, COOKIE) + tsx.to_bytes(12, "big")
+                v = _hmac.new(bytes.fromhex(key), head(len(body) + 4 + ln) + body, alg).digest()[:ln]
+                m = head(len(body) + 4 + ln) + body + struct.pack(">HH", TYPES[code], ln) + v
+                attrs = pre + ["%s:%s" % (code, key)]
+                q = "|".join(a if a[:2] in ("MI", "MS") else a.split(":")[0] for a in attrs)
+                cases.append(["ts%d" % k, "c20", "dec", m.hex(), q, "tamper", "-1", "|".join(attrs)]); k += 1
     # arbitrary / mutated bytes into the parser
     base = rfc_encode("ok", TSX[2], samples[0][2])
     allq = "|".join(sorted(TYPES) + [])
@@ -446,7 +460,7 @@ def oracle(case, impl):
                 ver = [c for c in checks if ("%s=verified" % c) in got]
                 # the bit lies inside the region covered by the LAST check unless it is in a later attribute
                 if len(ver) == len(checks):
-                    out.append("tampered message (bit %d flipped) passes all of its integrity/fingerprint checks: %s" % (bit, got))
+                    out.append("tampered message (%s) passes all of its integrity/fingerprint checks: %s" % ("bit %d flipped" % bit if bit >= 0 else "integrity value cut short", got))
         else:
             cls, tsx = case[5], int(case[6], 16)
             exp = expected_decode(cls, tsx, attrs)
